@@ -101,6 +101,18 @@ let () =
            protocol (abmd_machine fops) c it0 h k
              (fun (e, f) -> Printf.sprintf "E=%s F=%s" (hex e) (hex f))
              (fun (r, _) -> Printf.sprintf "refValue=%s" (hex r))
+         | "ALB" ->
+           let center = nf () in let width = nf () in let freq = nz () in let kt = nf () in
+           let range0 = nf () in let maxrate = nf () in let hard = nb () in let k0 = nf () in
+           let it0 = nz () in let t = ni () in let k = ni () in
+           let h = nflist t in
+           let c = { al_center = center; al_width = width; al_freq = freq; al_kT = kt; al_range0 = range0;
+                     al_max_rate = maxrate; al_hard = hard; al_k0 = k0 } in
+           protocol (alb_machine fops) c it0 h k
+             (fun (e, f) -> Printf.sprintf "E=%s F=%s" (hex e) (hex f))
+             (fun (((((((se, cu), ra), rt), ac), me), ss), ((ca, eq), fc)) ->
+                Printf.sprintf "setCoupling=%s currentCoupling=%s maxCouplingRange=%s couplingRate=%s couplingAccum=%s mean=%s ssd=%s updateCalls=%d b_equilibration=%s forceCoupling=%s"
+                  (hex se) (hex cu) (hex ra) (hex rt) (hex ac) (hex me) (hex ss) (int_of_z ca) (if eq then "yes" else "no") (hex fc))
          | "EXTLAG" ->
            let dt = nf () in let mass = nf () in let kx = nf () in
            let lang = nb () in let gf = nf () in let sigma = nf () in
